@@ -20,8 +20,9 @@ _W_BRANCHES = ['w-trap.branch.cruise', 'w-trap.branch.accel-only', 'w-trap.branc
 SPEC = dict(
     harness=['h_traj.c'],
     # the default (double) build runs the full harness; the other two real widths run a compact type-generic companion
-    configs=lambda tier: [dict(name='f64'), dict(name='f32', real=4, harness=['h_traj_w.c']), dict(name='f80', real=16, harness=['h_traj_w.c'])],
-    parallel_configs=3,
+    configs=lambda tier: [dict(name='f64'), dict(name='f32', real=4, harness=['h_traj_w.c']), dict(name='f80', real=16, harness=['h_traj_w.c']),
+                          dict(name='cxx', harness=['h_cxxw.c', 'h_cxxw_shim.cc'], hflags=['-DVF_CXXW=14'], nworkers=4)],
+    parallel_configs=4,
     level='exploration',
     rule='requests are drawn at random (log-uniform limits 1e-3..1e3, distances 1e-6..1e6 in both directions, boundary velocities '
          '0 / +-vm / random / along or against the direction of travel) or solved to sit at a planning-branch condition '
@@ -35,7 +36,7 @@ SPEC = dict(
          '(~0.7e3 queries each; half of them exact-regime requests built from dyadic values) to evaluations and their own cells '
          '(width, generator, branch, direction, exact or random regime) to distinct_nontrivial.',
     exhaustive={'quick': None, 'thorough': None},
-    require=['w-trap.judged', 'w-bell.judged'] + _W_BRANCHES
+    require=['a_trajtrap::gen', 'a_trajtrap::gen(5 args)', 'a_trajbell::gen(6 args)', 'a_trajbell::jer', 'a_trajtrap::pos', 'w-trap.judged', 'w-bell.judged'] + _W_BRANCHES
             + ['w-trap.' + c for c in _W_CLAUSES] + ['w-bell.' + c for c in _W_CLAUSES + _W_BELL_ONLY]
             + ['trap.judged', 'bell.judged']
             + [b + d for b in _BRANCHES for d in ('', '.forward', '.reversed')]
